@@ -241,6 +241,44 @@ func runC10(c *Ctx) {
 	kinds := drv.AllKinds
 	r.Set("backends", kinds)
 	keys := hostileKeys()
+	if r.Thorough() {
+		// generated hostile keys: 1-4 segments drawn from hostile segment classes, joined by '/' or '\\'
+		segs := []string{"..", ".", "", "a", "d", "k", "x", "bkt-two", "metadata", "buckets", "_meta", "uploads", ".gofakes3-uploads", "%2e%2e", "%2F", "..%2f", "é", " ", "~", strings.Repeat("s", 255), "other", "e", "z", "file", ".dot"}
+		grng := gen.Rng(r.Seed, "C10-generated-keys", 0)
+		seen := map[string]bool{}
+		for _, k := range keys {
+			seen[k] = true
+		}
+		for len(keys) < 1200 {
+			n := 1 + grng.Intn(4)
+			var parts []string
+			for i := 0; i < n; i++ {
+				parts = append(parts, segs[grng.Intn(len(segs))])
+			}
+			sep := "/"
+			if grng.Intn(8) == 0 {
+				sep = `\`
+			}
+			k := strings.Join(parts, sep)
+			if k == "" || seen[k] {
+				continue
+			}
+			if strings.Trim(k, "/") == "" {
+				continue // addresses the bucket itself, not a key
+			}
+			pre := false
+			for _, pk := range c10Preload {
+				if strings.Trim(k, "/") == pk {
+					pre = true // operating on a pre-loaded key legitimately changes it
+				}
+			}
+			if pre {
+				continue
+			}
+			seen[k] = true
+			keys = append(keys, k)
+		}
+	}
 	r.Set("hostile_keys", len(keys))
 	ops := c10Ops()
 	type job struct {
@@ -252,7 +290,7 @@ func runC10(c *Ctx) {
 		for oi := range ops {
 			jobs = append(jobs, job{k, oi})
 		}
-		jobs = append(jobs, job{k, -1}, job{k, -2}, job{k, -3}, job{k, -4}) // copy-from, listing prefixes, bucket names, opaque keys
+		jobs = append(jobs, job{k, -1}, job{k, -2}, job{k, -3}, job{k, -4}, job{k, -5}) // copy-from, listing prefixes, bucket names, opaque keys, bucket-name prefixes
 	}
 	rep.Parallel(len(jobs), 0, func(w, ji int) {
 		j := jobs[ji]
@@ -588,6 +626,62 @@ func runC10(c *Ctx) {
 					}
 				}
 			}
+		case j.oi == -5:
+			// buckets whose names are prefixes of each other: bucket-level operations on one must not touch the others
+			if drv.IsSingle(j.kind) {
+				return
+			}
+			fam := []string{"pre", "pre2", "pre-x", "pre.fix", "prefix", "pref"}
+			all := append(append([]string(nil), buckets...), fam...)
+			for _, b := range fam {
+				if cr := s.CreateBucket(b); cr.Status != 200 {
+					panic("harness: create bucket " + b + ": " + cr.String())
+				}
+				for _, k := range []string{"k", "d/x"} {
+					s.Put(b, k, []byte("family:"+b+"/"+k), drv.H("Content-Type", "text/x-"+b, "x-amz-meta-owner", b))
+				}
+			}
+			for _, victim := range fam {
+				for _, how := range []string{"empty-then-delete", "force-delete", "delete-nonempty"} {
+					r.Eval(1)
+					r.Distinct(fmt.Sprintf("%s|bucket-prefix|%s|%s", j.kind, victim, how))
+					before := storeSnapshot(s, all, nil)
+					var resp *drv.Resp
+					switch how {
+					case "empty-then-delete":
+						s.Delete(victim, "k")
+						s.Delete(victim, "d/x")
+						resp = s.Do(&drv.Req{Method: "DELETE", Path: "/" + victim})
+					case "force-delete":
+						resp = s.Do(&drv.Req{Method: "DELETE", Path: "/" + victim, Header: drv.H("x-minio-force-delete", "true")})
+					default:
+						resp = s.Do(&drv.Req{Method: "DELETE", Path: "/" + victim})
+					}
+					after := storeSnapshot(s, all, nil)
+					r.Count("bucket_prefix_ops", 1)
+					own := func(e string) bool {
+						return e == "bucket-list" || e == "bucket:"+victim || strings.HasPrefix(e, "obj:"+victim+"/") || strings.HasPrefix(e, "listed:"+victim+"/") ||
+							e == "list:"+victim || e == "list-delimited:"+victim || e == "bolt-bucket:"+victim || e == "bolt-key:_meta/bucket/"+victim ||
+							strings.HasPrefix(e, "disk:data/buckets/"+victim+"/") || strings.HasPrefix(e, "disk:data/metadata/"+victim+"/") || strings.HasSuffix(e, ".modtime-resolution") || strings.HasPrefix(e, "disk:data/uploads")
+					}
+					if d := snapshotDiff(before, after, own); len(d) > 0 {
+						r.Violation(sig("C10", backendClass(j.kind), "sibling-bucket-changed", "delete-bucket,"+how), fmt.Sprintf("%s: %s of bucket %q (%s) changed entries of other buckets: %s", j.kind, how, victim, resp, clip(strings.Join(d, "; "), 400)),
+							map[string]interface{}{"backend": j.kind, "bucket": victim, "how": how, "changed": d})
+					}
+					// the bucket list may only have lost the victim
+					if before["bucket-list"] != after["bucket-list"] {
+						want := strings.Join(removeString(strings.Split(before["bucket-list"], ","), victim), ",")
+						if after["bucket-list"] != want {
+							r.Violation(sig("C10", backendClass(j.kind), "bucket-set-changed", "delete-bucket,"+how), fmt.Sprintf("%s: %s of bucket %q: bucket list went from %s to %s", j.kind, how, victim, before["bucket-list"], after["bucket-list"]), nil)
+						}
+					}
+					// recreate and refill the victim for the next round
+					s.CreateBucket(victim)
+					for _, k := range []string{"k", "d/x"} {
+						s.Put(victim, k, []byte("family:"+victim+"/"+k), drv.H("Content-Type", "text/x-"+victim, "x-amz-meta-owner", victim))
+					}
+				}
+			}
 		case j.oi == -4:
 			// opaque key stores: byte-different keys are different objects
 			if j.kind != drv.Mem && j.kind != drv.Bolt {
@@ -634,6 +728,7 @@ func runC10(c *Ctx) {
 	r.Require("hostile_prefix_listings", 500)
 	r.Require("hostile_bucket_requests", 1000)
 	r.Require("opaque_key_reads", 30)
+	r.Require("bucket_prefix_ops", 50)
 	r.Assume("over HTTP the router trims leading/trailing slashes of the path, so the addressed key is the trimmed one; fs backends may refuse any key (any non-2xx) but then nothing at all may change",
 		"on disk, an accepted write to bucket B may change anything below buckets/B, metadata/B and the temporary uploads directory; single-bucket backends hold one bucket, so only the sentinel outside data/ and meta/ is framed on disk")
 	_ = gofakes3.ErrNoSuchKey
@@ -655,4 +750,14 @@ func routeOf(q *drv.Req) string {
 		kind += "+force"
 	}
 	return kind
+}
+
+func removeString(xs []string, x string) []string {
+	var out []string
+	for _, v := range xs {
+		if v != x {
+			out = append(out, v)
+		}
+	}
+	return out
 }
